@@ -371,7 +371,7 @@ def run(ctx: Ctx):
     corpus(ctx, rng)
 
     # 1. bounded-exhaustive over (operator, position) on a few definitions per class
-    n_seed_defs = ctx.budget(10, 40)
+    n_seed_defs = ctx.budget(8, 40)
     for cls in G.CLASSES:
         for i in range(n_seed_defs):
             kw = G.rand_def(rng, cls)
@@ -383,7 +383,7 @@ def run(ctx: Ctx):
             if i < ctx.budget(2, 6):
                 pairs = [(x, y) for x in range(len(cors)) for y in range(len(cors)) if x != y]
                 rng.shuffle(pairs)
-                for x, y in pairs[: ctx.budget(250, 1500)]:
+                for x, y in pairs[: ctx.budget(150, 1500)]:
                     k2 = double(kw, cls, cors[x], cors[y])
                     if k2 is not None:
                         check_validate(ctx, cls, k2, "double_corruption", None,
@@ -392,7 +392,7 @@ def run(ctx: Ctx):
                    "definitions of each of the 8 classes")
 
     # 2. shaped random: valid (with / without rows keyed by non-states), corrupted, options
-    for _ in range(ctx.budget(250, 3000)):
+    for _ in range(ctx.budget(140, 3000)):
         for cls in G.CLASSES:
             junk = cls in G.JUNK_CLASSES and rng.random() < 0.5
             kw = G.rand_def(rng, cls, junk=junk)
@@ -414,7 +414,7 @@ def run(ctx: Ctx):
             if rng.random() < 0.25:
                 check_construct_options(ctx, cls, kw, "valid")
     # 3. accepted definitions are usable, results valid, junk rows irrelevant
-    for _ in range(ctx.budget(75, 1200)):
+    for _ in range(ctx.budget(45, 1200)):
         for cls in G.CLASSES:
             junk = cls in G.JUNK_CLASSES and rng.random() < 0.6
             kw = G.rand_def(rng, cls, junk=junk)
@@ -426,7 +426,7 @@ def run(ctx: Ctx):
                     check_validate(ctx, cls, k, "odd_accepted", None)
                     use_definition(ctx, cls, k, rng, f"odd_accepted:{tag}", finding=f"C19:{tag}")
     # 4. the four option combinations
-    for _ in range(ctx.budget(30, 400)):
+    for _ in range(ctx.budget(16, 400)):
         for cls in G.CLASSES:
             options_check(ctx, cls, G.rand_def(rng, cls), rng, "valid")
 
